@@ -550,3 +550,146 @@ func callArgsC01(c *Ctx) {
 	}
 	c.Floor("C01.callargs", n, 2)
 }
+
+// nilReceiverRule: a node that Walk hands to visitors as a nil pointer prints
+// without panicking.
+func nilReceiverRule(c *Ctx, rule string) {
+	p := c.P
+	c.Rule(rule, "where Walk passes a pointer-typed field of a node on without a nil test, and the package itself tests that field against nil elsewhere (so it can be nil: SELECT without INTO has a nil Target), the String method of the pointed-to type starts by returning when its receiver is nil: visitors receive the typed nil pointer as a non-nil Node, and printing it must not dereference it")
+	walk := p.FuncDecls[p.Func("Walk")]
+	if walk == nil || walk.Body == nil {
+		c.Unk(rule, "Walk", 0, "anchor not found")
+		return
+	}
+	// fields the package believes can be nil
+	belief := map[types.Object]bool{}
+	for _, fb := range p.funcBodies() {
+		ast.Inspect(fb.Body, func(n ast.Node) bool {
+			be, ok := n.(*ast.BinaryExpr)
+			if !ok || (be.Op != token.EQL && be.Op != token.NEQ) {
+				return true
+			}
+			for _, pair := range [][2]ast.Expr{{be.X, be.Y}, {be.Y, be.X}} {
+				if id := identOf(pair[1]); id == nil || id.Name != "nil" {
+					continue
+				}
+				if sel, ok := ast.Unparen(pair[0]).(*ast.SelectorExpr); ok {
+					if s := p.Info.Selections[sel]; s != nil && s.Kind() == types.FieldVal {
+						belief[s.Obj()] = true
+					}
+				}
+			}
+			return true
+		})
+	}
+	n := 0
+	seenT := map[string]bool{}
+	var visit func(nd ast.Node, guarded map[types.Object]bool)
+	visit = func(nd ast.Node, guarded map[types.Object]bool) {
+		ast.Inspect(nd, func(m ast.Node) bool {
+			if m == nd {
+				return true
+			}
+			switch x := m.(type) {
+			case *ast.IfStmt:
+				g2 := map[types.Object]bool{}
+				for k, v := range guarded {
+					g2[k] = v
+				}
+				if be, ok := ast.Unparen(x.Cond).(*ast.BinaryExpr); ok && be.Op == token.NEQ {
+					if sel, ok := ast.Unparen(be.X).(*ast.SelectorExpr); ok {
+						if s := p.Info.Selections[sel]; s != nil {
+							g2[s.Obj()] = true
+						}
+					}
+				}
+				visit(x.Body, g2)
+				if x.Else != nil {
+					visit(x.Else, guarded)
+				}
+				return false
+			case *ast.CallExpr:
+				id := identOf(x.Fun)
+				if id == nil || id.Name != "Walk" || len(x.Args) != 2 {
+					return true
+				}
+				sel, ok := ast.Unparen(x.Args[1]).(*ast.SelectorExpr)
+				if !ok {
+					return true
+				}
+				s := p.Info.Selections[sel]
+				if s == nil || s.Kind() != types.FieldVal || guarded[s.Obj()] || !belief[s.Obj()] {
+					return true
+				}
+				pt, ok := s.Type().(*types.Pointer)
+				if !ok {
+					return true
+				}
+				nt, ok := pt.Elem().(*types.Named)
+				if !ok || seenT[nt.Obj().Name()] {
+					return true
+				}
+				seenT[nt.Obj().Name()] = true
+				n++
+				tn := nt.Obj().Name()
+				key := fmt.Sprintf("Walk: %s may be a nil *%s: %s.String guards its receiver", types.ExprString(sel), tn, tn)
+				sd := p.FuncDecls[p.Method(tn, "String")]
+				if sd == nil || sd.Body == nil || sd.Recv == nil || len(sd.Recv.List[0].Names) == 0 {
+					c.Unk(rule, key, x.Pos(), "String method not found")
+					return true
+				}
+				recv := p.Info.Defs[sd.Recv.List[0].Names[0]]
+				okGuard := false
+				if len(sd.Body.List) > 0 {
+					if is, ok := sd.Body.List[0].(*ast.IfStmt); ok && is.Init == nil {
+						if be, ok := ast.Unparen(is.Cond).(*ast.BinaryExpr); ok && be.Op == token.EQL {
+							l, r := identOf(be.X), identOf(be.Y)
+							if l != nil && r != nil && ((p.Info.ObjectOf(l) == recv && r.Name == "nil") || (p.Info.ObjectOf(r) == recv && l.Name == "nil")) {
+								if len(is.Body.List) > 0 {
+									if _, isRet := is.Body.List[len(is.Body.List)-1].(*ast.ReturnStmt); isRet {
+										okGuard = true
+									}
+								}
+							}
+						}
+					}
+				}
+				if okGuard {
+					c.OK(rule, key, sd.Pos(), "returns at once for a nil receiver")
+				} else {
+					// the receiver may still be tested before every use in another form
+					usesBeforeTest := false
+					ast.Inspect(sd.Body, func(q ast.Node) bool {
+						if s2, ok := q.(*ast.SelectorExpr); ok {
+							if i2 := identOf(s2.X); i2 != nil && p.Info.ObjectOf(i2) == recv {
+								usesBeforeTest = true
+							}
+						}
+						return true
+					})
+					tested := false
+					ast.Inspect(sd.Body, func(q ast.Node) bool {
+						if be, ok := q.(*ast.BinaryExpr); ok && (be.Op == token.EQL || be.Op == token.NEQ) {
+							l, r := identOf(be.X), identOf(be.Y)
+							if l != nil && r != nil && ((p.Info.ObjectOf(l) == recv && r.Name == "nil") || (p.Info.ObjectOf(r) == recv && l.Name == "nil")) {
+								tested = true
+							}
+						}
+						return true
+					})
+					switch {
+					case tested:
+						c.Unk(rule, key, sd.Pos(), "the receiver is tested against nil, but not as the method's first statement: not followed")
+					case usesBeforeTest:
+						c.Bad(rule, key, sd.Pos(), "the method reads fields of its receiver and never tests it against nil: printing the typed nil that Walk hands to visitors panics")
+					default:
+						c.OK(rule, key, sd.Pos(), "does not touch its receiver")
+					}
+				}
+			}
+			return true
+		})
+	}
+	visit(walk.Body, map[types.Object]bool{})
+	c.Floor(rule, n, 1)
+}
